@@ -4449,9 +4449,12 @@ class EntityMeta(type):
                              % (obj.__class__.__name__, pkval))
         elif obj.__class__ is entity: pass
         elif issubclass(obj.__class__, entity): pass
-        elif not issubclass(entity, obj.__class__): throw(TransactionError,
-            'Unexpected class change from %s to %s for object with primary key %r' %
-            (obj.__class__, entity, obj._pkval_))
+        elif not issubclass(entity, obj.__class__):
+            # an unloaded placeholder typed by one branch of a diamond may be met again through a reference typed by another branch:
+            # both can be bases of the stored class; the row decides when the object is loaded
+            if not (obj in cache.seeds[pk_attrs] and obj.__class__._subclasses_.intersection(entity._subclasses_)): throw(TransactionError,
+                'Unexpected class change from %s to %s for object with primary key %r' %
+                (obj.__class__, entity, obj._pkval_))
         elif obj._rbits_ or obj._wbits_: throw(NotImplementedError)
         else: obj.__class__ = entity
 
